@@ -163,6 +163,13 @@ def step (st : St) (line : String) : St × String :=
       ({ c := st.c.step L (.drain t), seen := seenSet st.seen t log.length },
         toString new.length ++ String.join (new.map fun m => " " ++ showMsg m))
     | none => (st, "bad-op")
+  | ["fill", t, n] =>
+    -- scenario slow-consumer-inbox-overflow: n one-packet messages straight to the receiver, nobody reading
+    match nat? t, nat? n with
+    | some t, some n =>
+      let r' := (List.range n).foldl (fun r i => r.handle L ⟨t, true, pattern (i % 251) (1 + i % 7)⟩) st.c.r
+      ({ st with c := { st.c with r := r' } }, "inbox-len " ++ toString (r'.inbox.get t).length)
+    | _, _ => (st, "bad-op")
   | ["pkt", t, eof, seed, len] =>
     match nat? t, nat? eof, nat? seed, nat? len with
     | some t, some e, some s, some l => recvPkt st ⟨t, e != 0, pattern s l⟩
